@@ -98,7 +98,14 @@ func runKillSweep(t *testing.T, rc *RunCtx) {
 	workload := rc.Seed / 32
 	killAt := int(rc.Seed%32) + 1
 	dir := NewRunDir(t)
-	out, code := runChildProc(t, dir, workload, 8, []string{"VERIF_HOOK_KILL_AT=" + strconv.Itoa(killAt)}, nil)
+	pruning := func() string {
+		if rc.Ch.Pick(2, 0) == 1 {
+			rc.Stats.Inc("incarnations_with_periodic_pruning", 1)
+			return "VERIF_CHILD_PRUNING=1"
+		}
+		return "VERIF_CHILD_PRUNING=0"
+	}
+	out, code := runChildProc(t, dir, workload, 8, []string{"VERIF_HOOK_KILL_AT=" + strconv.Itoa(killAt), pruning()}, nil)
 	rel, done := parseReleased(out)
 	rc.Logf("workload %d killed at storage point %d: exit %d, %d signatures released, completed=%v", workload, killAt, code, len(rel), done)
 	if code != 0 && code != -1 && !strings.Contains(out, "START") {
@@ -110,8 +117,43 @@ func runKillSweep(t *testing.T, rc *RunCtx) {
 	} else {
 		rc.Stats.Inc("crash_real_process_kill", 1)
 	}
-	rc.Stats.Seen("cases", fmt.Sprintf("w%d/k%d/%d", workload, killAt, len(rel)))
-	rc.Sample = map[string]any{"layer": "real process kill", "workload_seed": workload, "kill_at_storage_point": killAt, "released_before_death": len(rel), "completed": done}
+	// Further incarnations on the same directory, each killed in turn: early kill points land in
+	// whatever the instance does with an existing store while it starts.
+	chain := rc.Ch.Pick(3, 0)
+	desc := fmt.Sprintf("w%d/k%d/%d", workload, killAt, len(rel))
+	for g := 1; g <= chain; g++ {
+		prior := filepath.Join(filepath.Dir(dir), fmt.Sprintf("prior-%d-%d.txt", rc.Seed, g))
+		var sb strings.Builder
+		for _, r := range rel {
+			fmt.Fprintf(&sb, "RELEASED %s %d %d %d -\n", r.kind, r.acct, r.a, r.b)
+		}
+		if err := os.WriteFile(prior, []byte(sb.String()), 0o600); err != nil {
+			t.Fatalf("prior: %v", err)
+		}
+		k := 1 + rc.Ch.Pick(8, 0)
+		o, c := runChildProc(t, dir, workload*7+uint64(g), 6, []string{"VERIF_HOOK_KILL_AT=" + strconv.Itoa(k), "VERIF_CHILD_PRIOR=" + prior, pruning()}, nil)
+		_ = os.Remove(prior)
+		r2, d2 := parseReleased(o)
+		rc.Logf("incarnation %d on the same directory killed at its storage point %d: exit %d, %d more signatures released, completed=%v", g+1, k, c, len(r2), d2)
+		if c == 4 {
+			// The store refused to open after the previous kill: nothing can be signed, which is safe.
+			rc.Stats.Inc("restart_open_failed", 1)
+			break
+		}
+		if c != 0 && c != -1 {
+			rc.Violate("HARNESS", "child-failed", truncate(o, 2000), 0)
+			return
+		}
+		if !strings.Contains(o, "START") {
+			rc.Stats.Inc("crash_real_process_kill_during_startup", 1)
+		} else if !d2 {
+			rc.Stats.Inc("crash_real_process_kill", 1)
+		}
+		rel = append(rel, r2...)
+		desc += fmt.Sprintf("+k%d/%d", k, len(r2))
+	}
+	rc.Stats.Seen("cases", desc)
+	rc.Sample = map[string]any{"layer": "real process kill", "workload_seed": workload, "kill_at_storage_point": killAt, "further_incarnations_killed": chain, "released_before_death": len(rel), "completed": done, "case": desc}
 	s := NewSched(rc, SchedCfg{})
 	defer s.Close()
 	inst, err := NewInstance(s, "after-kill", InstCfg{Dir: dir, Pop: pop, Permissions: FullPermissions("client1")})
